@@ -1217,7 +1217,9 @@ func (c *Check) wireConstants() {
 		c.undecided("C01-R5", "varint", "", "encodeVarint/decodeVarint not found")
 	} else {
 		encOK := has(enc, ">=", 128) && has(enc, "|", 128) && has(enc, ">>", 7) || has(enc, "<", 128) && has(enc, "|", 128) && has(enc, ">>", 7)
-		decOK := has(dec, "&", 127) && has(dec, "&", 128) && has(dec, "*", 7) && has(dec, ">=", 10)
+		// the group limit may be written as a bail-out (i >= 10) or as a loop bound (i < 10)
+		limit := has(dec, ">=", 10) || has(dec, "<", 10) || has(dec, ">", 9) || has(dec, "<=", 9) || has(dec, "==", 10)
+		decOK := has(dec, "&", 127) && has(dec, "&", 128) && (has(dec, "*", 7) || has(dec, "+", 7)) && limit
 		if encOK {
 			c.ok("C01-R5", "varint:encode", p.relFile(ef.Pos()), "encodeVarint emits 7-bit groups with continuation bit 0x80", "constants: threshold 128, |0x80, >>7")
 		} else {
